@@ -16,6 +16,7 @@ CONSTANTS
   EmitDepth = 0
   RareOff = TRUE
   EmitEdges = FALSE
+  EmitOneIn = 1
 VIEW View
 INVARIANTS LiveClosed ParentsAgree
 CHECK_DEADLOCK FALSE
